@@ -15,6 +15,7 @@ import (
 	"bytes"
 	"encoding/json"
 	"fmt"
+	"math"
 	"os"
 	"os/exec"
 	"path/filepath"
@@ -79,6 +80,36 @@ func c10CPUms() int {
 		return 0
 	}
 	return int(ru.Utime.Sec*1000+ru.Utime.Usec/1000) + int(ru.Stime.Sec*1000+ru.Stime.Usec/1000)
+}
+
+// c10CalibRefMs is the process CPU time of c10Calib on the machine on which the envelope of spec/HostileProto.tla was
+// calibrated (measured with 16 workers running side by side, as in the batch phase).
+const c10CalibRefMs = 400
+
+// c10Calib runs a fixed workload of the kind the compiler stages consist of (many small allocations, a large join,
+// formatted writes into a growing buffer: allocation, page faults and copying) and returns the process CPU time it took.
+// The supervisor divides by c10CalibRefMs to express the CPU times of this worker in reference-machine milliseconds: a
+// machine (or a moment) on which the same work costs k times the CPU gets k times the CPU limit, never less than the
+// envelope itself.  It cannot make the check stricter.
+func c10Calib() int {
+	t0 := c10CPUms()
+	var sink int
+	for rep := 0; rep < 1; rep++ {
+		parts := make([]string, 150000)
+		for i := range parts {
+			parts[i] = strconv.Itoa(i & 1023)
+		}
+		j := strings.Join(parts, ", ")
+		var sb strings.Builder
+		for i := 0; i < 8; i++ {
+			fmt.Fprintf(&sb, "%s = int[%d](%s);\n", "v", len(parts), j[:len(j)/8])
+		}
+		sink += sb.Len()
+	}
+	if sink == 0 {
+		return 0
+	}
+	return c10CPUms() - t0
 }
 
 // c10ResetHWM resets the peak-RSS counter of this process (Linux: "5" to clear_refs).
@@ -163,6 +194,8 @@ func c10Worker(jobFile string) int {
 	w := bufio.NewWriterSize(os.Stdout, 1<<16)
 	defer w.Flush()
 	fmt.Fprintf(w, "H %v\n", hwm)
+	fmt.Fprintf(w, "C %d\n", c10Calib())
+	w.Flush()
 	for i := range job.Inputs {
 		c10RunInput(w, &job.Inputs[i], hwm)
 		fmt.Fprintf(w, "D %d\n", job.Inputs[i].ID)
@@ -374,7 +407,8 @@ type c10Super struct {
 	workDir string
 	mu      sync.Mutex
 	serial  int
-	Workers int // worker processes started
+	Workers int     // worker processes started
+	MaxSlow float64 // largest calibration factor applied to a worker (1 = reference machine)
 }
 
 func newC10Super(workDir string) *c10Super {
@@ -444,6 +478,7 @@ type c10Flight struct {
 	peakRSS  int
 	lastCPU  int
 	finished bool
+	slow     float64 // calibration factor of this worker (>= 1)
 }
 
 func c10PidCPUms(pid int) int {
@@ -493,7 +528,7 @@ func (s *c10Super) runOnce(inputs []c10JobInput, lim c10Limits) (res map[int]*c1
 		}
 		return res, len(inputs)
 	}
-	fl := &c10Flight{}
+	fl := &c10Flight{slow: 1}
 	stop := make(chan struct{})
 	var wg sync.WaitGroup
 	wg.Add(1)
@@ -520,7 +555,7 @@ func (s *c10Super) runOnce(inputs []c10JobInput, lim c10Limits) (res map[int]*c1
 					fl.peakRSS = rss
 				}
 				switch {
-				case cpu >= 0 && cpu-fl.cpu0 > lim.CPUms:
+				case cpu >= 0 && float64(cpu-fl.cpu0) > float64(lim.CPUms)*fl.slow:
 					fl.killed = "timeout"
 				case rss > lim.RSSMiB:
 					fl.killed = "oom"
@@ -553,6 +588,18 @@ func (s *c10Super) runOnce(inputs []c10JobInput, lim c10Limits) (res map[int]*c1
 		switch line[0] {
 		case 'H':
 			hwm = strings.Contains(line, "true")
+		case 'C':
+			if ms, err := strconv.Atoi(strings.TrimSpace(line[2:])); err == nil {
+				f := math.Min(6, math.Max(1, float64(ms)/c10CalibRefMs))
+				fl.mu.Lock()
+				fl.slow = f
+				fl.mu.Unlock()
+				s.mu.Lock()
+				if f > s.MaxSlow {
+					s.MaxSlow = f
+				}
+				s.mu.Unlock()
+			}
 		case 'B':
 			f := strings.SplitN(line, " ", 3)
 			if len(f) == 3 {
@@ -574,6 +621,7 @@ func (s *c10Super) runOnce(inputs []c10JobInput, lim c10Limits) (res map[int]*c1
 			if json.Unmarshal([]byte(line[2:]), &ev) == nil {
 				fl.mu.Lock()
 				fl.active = false
+				ev.CPU = int(float64(ev.CPU) / fl.slow)
 				fl.mu.Unlock()
 				if res[ev.ID] == nil {
 					res[ev.ID] = &c10Result{HWM: hwm}
@@ -622,7 +670,7 @@ func (s *c10Super) runOnce(inputs []c10JobInput, lim c10Limits) (res map[int]*c1
 			if i := strings.IndexByte(stage, ':'); i >= 0 {
 				stage = stage[:i]
 			}
-			ev := c10Event{ID: id, Stage: stage, Key: fl.key, Out: out, Msg: msg, CPU: max(0, fl.lastCPU-fl.cpu0), RSS: fl.peakRSS}
+			ev := c10Event{ID: id, Stage: stage, Key: fl.key, Out: out, Msg: msg, CPU: int(float64(max(0, fl.lastCPU-fl.cpu0)) / fl.slow), RSS: fl.peakRSS}
 			ev.Where, ev.File = c10StackWhere(errText)
 			ev.Hot = c10Hot(errText)
 			r.Events = append(r.Events, ev)
